@@ -57,6 +57,9 @@ func NewParser(srcPath, dstPath string) (*Parser, error) {
 	}
 
 	dstStat, _ := os.Stat(dstPath)
+	if dstStat != nil && os.SameFile(srcStat, dstStat) {
+		return nil, logger.Errorf("%v: the output path names the setup file itself", srcPath)
+	}
 	var parseErr error
 	cfg := &packages.Config{
 		Dir:        filepath.Dir(absSrcPath),
